@@ -179,3 +179,137 @@ func tableComplete(r *engine.Run, rule, rel string, owners map[string]bool, tabl
 		}
 	}
 }
+
+// pairUnlock: every acquisition of a mutex is released on every path to a
+// return of the acquiring function: a matching Unlock/RUnlock call on the same
+// mutex, or a deferred one registered on the path. A path that returns with the
+// lock held blocks every later operation on the object.
+func pairUnlock(r *engine.Run, rule string, funcs []*ssa.Function, minimum int) {
+	n := 0
+	for _, f := range funcs {
+		if len(f.Blocks) == 0 {
+			continue
+		}
+		o := ord{}
+		engine.Instrs(f, func(in ssa.Instruction) {
+			c, ok := in.(*ssa.Call)
+			if !ok {
+				return
+			}
+			tkey, op, isLock := engine.LockOp(c)
+			if !isLock || (op != "Lock" && op != "RLock") {
+				return
+			}
+			want := "Unlock"
+			if op == "RLock" {
+				want = "RUnlock"
+			}
+			vkey := engine.ValKey(c.Call.Args[0])
+			releases := func(ci ssa.CallInstruction) bool {
+				k2, op2, ok2 := engine.LockOp(ci)
+				if ok2 && op2 == want && (engine.ValKey(ci.Common().Args[0]) == vkey || k2 == tkey) {
+					return true
+				}
+				// a deferred closure that releases the mutex
+				if d, isDefer := ci.(*ssa.Defer); isDefer {
+					var body *ssa.Function
+					switch fv := d.Call.Value.(type) {
+					case *ssa.MakeClosure:
+						body, _ = fv.Fn.(*ssa.Function)
+					case *ssa.Function:
+						body = fv
+					}
+					if body != nil {
+						found := false
+						engine.Instrs(body, func(i2 ssa.Instruction) {
+							if c2, ok := i2.(ssa.CallInstruction); ok {
+								if k3, op3, ok3 := engine.LockOp(c2); ok3 && op3 == want && k3 == tkey {
+									found = true
+								}
+							}
+						})
+						return found
+					}
+				}
+				return false
+			}
+			n++
+			r.CallSites++
+			// search: from the instruction after the acquisition
+			type pos struct {
+				b *ssa.BasicBlock
+				i int
+			}
+			seen := map[*ssa.BasicBlock]bool{}
+			leak := ""
+			var walk func(p pos)
+			walk = func(p pos) {
+				for i := p.i; i < len(p.b.Instrs); i++ {
+					switch x := p.b.Instrs[i].(type) {
+					case ssa.CallInstruction:
+						if releases(x) {
+							return
+						}
+					case *ssa.Return:
+						if leak == "" {
+							leak = r.P.Pos(x.Pos())
+							if leak == "-" {
+								leak = "end of function"
+							}
+						}
+						return
+					case *ssa.Panic:
+						return
+					}
+				}
+				for _, s := range p.b.Succs {
+					if !seen[s] {
+						seen[s] = true
+						walk(pos{s, 0})
+					}
+				}
+			}
+			walk(pos{c.Block(), engine.InstrIndex(c) + 1})
+			r.Check(leak == "", rule, o.next(fn(f)+"|"+op+" "+tkey), r.P.Pos(c.Pos()), "released ("+want+" or deferred "+want+") on every path to a return",
+				"the mutex acquired here is still held on a path to a return ("+leak+"): every later operation that needs it blocks forever")
+		})
+	}
+	// the converse: every release is preceded by its acquisition in the same function
+	for _, f := range funcs {
+		if len(f.Blocks) == 0 {
+			continue
+		}
+		o := ord{}
+		engine.Instrs(f, func(in ssa.Instruction) {
+			ci, ok := in.(ssa.CallInstruction)
+			if !ok {
+				return
+			}
+			tkey, op, isLock := engine.LockOp(ci)
+			if !isLock || (op != "Unlock" && op != "RUnlock") {
+				return
+			}
+			want := "Lock"
+			if op == "RUnlock" {
+				want = "RLock"
+			}
+			vkey := engine.ValKey(ci.Common().Args[0])
+			good := false
+			engine.Instrs(f, func(i2 ssa.Instruction) {
+				c2, ok := i2.(*ssa.Call)
+				if !ok {
+					return
+				}
+				k2, op2, ok2 := engine.LockOp(c2)
+				if ok2 && op2 == want && (k2 == tkey || engine.ValKey(c2.Call.Args[0]) == vkey) && engine.InstrDominates(c2, in) {
+					good = true
+				}
+			})
+			r.Check(good, rule, o.next(fn(f)+"|"+op+" "+tkey), r.P.Pos(in.Pos()), "the release is dominated by the matching acquisition",
+				"a mutex is released ("+op+") on a path that did not acquire it ("+want+") in this function: unlocking an unlocked mutex is a fatal runtime error, and the section it was meant to protect runs unprotected")
+		})
+	}
+	if n < minimum {
+		r.Anchor(rule, fmt.Errorf("unresolved anchor: %d mutex acquisitions found, at least %d expected", n, minimum))
+	}
+}
